@@ -406,7 +406,17 @@ def dealias_elements(ts):
             c = enumerate_base(n[1])
             if c is not None:
                 return ('index', rwset(c), frozenset([('field', n[1], '0')]))
-        return tuple(rwset(x) if isinstance(x, frozenset) else (tuple(rwset(y) if isinstance(y, frozenset) else y for y in x) if isinstance(x, tuple) and x and isinstance(x[0], frozenset) else x) for x in n)
+        def rwx(x):
+            if isinstance(x, frozenset):
+                return rwset(x)
+            if isinstance(x, tuple) and x and n[0] != 'closure_path':
+                # argument tuples (T, T, ..), aggregate field lists ((name, T), ..) and call sites (path, block)
+                if all(isinstance(y, frozenset) for y in x):
+                    return tuple(rwset(y) for y in x)
+                if all(isinstance(y, tuple) and len(y) == 2 and isinstance(y[1], frozenset) for y in x):
+                    return tuple((y[0], rwset(y[1])) for y in x)
+            return x
+        return tuple(rwx(x) for x in n)
 
     def rwset(s):
         return frozenset(rw(n) for n in s)
@@ -430,7 +440,7 @@ def norm_state(ctx, planner, fn, ts):
                     if st is not None:
                         rep = strip_clone(st)
         if rep is not None:
-            out |= rep
+            out |= dealias_elements(rep)
         else:
             out.add(n)
     return frozenset(out)
